@@ -275,6 +275,8 @@ def run_ti(ctx, st):
     finally:
         ole.firehose_tracepoint_id, ole.Int64ul = saved
     want = O.unpack_trace_id(w)
+    ctx.observe('decoded', [getattr(t.type_, 'value', t.type_), _b(t.has_large_offset), _b(t.has_unique_pid), t.pc_style.value,
+                            _b(t.has_current_aid), getattr(t.flags, 'value', None), t.code])
     L = 'C16/trace-identifier/' + nsname
     ctx.check(L + '/namespace', t.namespace.value == ns and t.namespace.name == nsname)
     tv = getattr(t.type_, 'value', t.type_)
